@@ -70,7 +70,7 @@ static dig_t porninstep(dis_t m[4],const dig_t f[2], const dig_t g[2],
 		g_lo ^= borrow;
 		g_hi ^= borrow;
 		limbx = g_lo + (borrow & 1);
-		g_hi += (g_lo < limbx);
+		g_hi += (limbx < g_lo);
 		g_lo = limbx;
 
 		/* f_=g_ if g_-f_ borrowed */
@@ -120,7 +120,7 @@ static dig_t porninstep(dis_t m[4],const dig_t f[2], const dig_t g[2],
 		g_lo ^= borrow;
 		g_hi ^= borrow;
 		limbx = g_lo + (borrow & 1);
-		g_hi += (g_lo < limbx);
+		g_hi += (limbx < g_lo);
 		g_lo = limbx;
 
 		/* f_=g_ if g_-f_ borrowed */
@@ -342,7 +342,7 @@ int fp_smb_binar(const fp_t a) {
 			k += (f[0] >> 1) & neg;
 		}
 
-		k = porninstep(m, g, f, k, iterations % s);
+		k = porninstep(m, f, g, k, iterations % s);
 
 	} RLC_CATCH_ANY {
 		RLC_THROW(ERR_CAUGHT)
